@@ -598,9 +598,15 @@ pub fn arg_pat(ty: Ty, prefix: String, allow_str_lit: bool, allow_eq: bool, allo
                 .boxed()
         }
     };
-    match ty {
-        Ty::Newtype => prop_oneof![5 => structural, 1 => wild, 1 => eqs].boxed(),
-        _ => prop_oneof![6 => structural, 1 => wild, 1 => bind, 1 => eqs].boxed(),
+    let coercing = matches!(ty, Ty::StrRef | Ty::String | Ty::Newtype | Ty::VecU8 | Ty::SliceRef);
+    match (coercing, allow_str_lit, allow_eq) {
+        // literal / slice patterns at this position (eq!/ne! excluded by the macro's coercion)
+        (true, true, _) => prop_oneof![9 => structural, 1 => wild, 1 => bind].boxed(),
+        // no literal patterns here: compare with eq!/ne!, bind, or ignore
+        (true, false, true) => prop_oneof![7 => eqs, 2 => bind, 1 => wild].boxed(),
+        (true, false, false) => prop_oneof![1 => bind, 1 => wild].boxed(),
+        (false, _, true) => prop_oneof![9 => structural, 1 => wild, 1 => bind, 2 => eqs].boxed(),
+        (false, _, false) => prop_oneof![9 => structural, 1 => wild, 1 => bind].boxed(),
     }
 }
 
